@@ -98,6 +98,16 @@ def cases(tier: str, rng: random.Random) -> List[Case]:
             if k2 != kind:
                 for val in vals2[:4]:
                     out.append(std_case(v, from_py(val, None), "sync", tag="c:other-target"))
+    # the default coercer together with a predicate that holds: what is returned is still what the constructor built
+    for kind, vals in tv.items():
+        vp = ("Scalar", (kind,), Some((G.DEFAULT_CO[kind],)), [], [("PUser", N(0))], [])
+        for val in vals[:6]:
+            out.append(std_case(vp, from_py(val, None), "sync", tag="a:target-instance"))
+            for s_ in texts(kind, val)[:3]:
+                for m in ("sync", "async"):
+                    out.append(std_case(vp, G.S(s_), m, tag="a:text"))
+            if kind == "KDecimal" and val.is_finite() and val == val.to_integral_value() and abs(val) < 10 ** 30:
+                out.append(std_case(vp, G.I(int(val)), "sync", tag="a:int-source"))
     for x in others + [("VList", [G.I(1), G.S("a")]), ("VTuple", [G.I(1), G.S("a")]), ("VList", []), ("VTuple", []), G.LISTSUB]:
         for m in ("sync", "async"):
             out.append(std_case(TUP, x, m, tag="a:tuple"))
